@@ -269,7 +269,7 @@ pub fn run(ctx: &Ctx) -> Outcome {
         }
     }
     if want("random") {
-        let (lo, hi) = range(ctx.tier.pick(1500, 60_000));
+        let (lo, hi) = range(ctx.tier.pick(6000, 60_000));
         run_cases(&mut acc, "random", hi - lo, |i| {
             let i = i + lo;
             let mut rng = Rng::derive(seed, "c05-random", i);
